@@ -23,6 +23,8 @@ def build_cases(tier, seed):
         prof["network"] = ["euclidean", "grid", "euclidean"][i % 3]
         prof["fleets"] = [0, 2, 0, 3][i % 4]
         ctrl = BUILTIN if i % 2 == 0 else hostile_stack(p=0.25, builtin=True)  # Hostile is a pure function of (seed, sim time, vehicle id)
+        if i % 4 == 2:
+            ctrl = {"stack": ["Dispatcher", "ChargingFleetManager", {"stateful": {"k": 3}}]}  # state handed on inside the payload
         cases.append(trace_case("C16", i, s, prof, ctrl, steps, ["C16"], opts={"c16_twice_every": 5}))
     if tier == "thorough":
         for w in ("denver_downtown/denver_demo.yaml", "denver_downtown/denver_demo_fleets.yaml"):
